@@ -83,4 +83,21 @@ theorem insertBeforeTop_mid {A : List HTree} {w : HTree} {B : List HTree} (t : H
   unfold insertBeforeTop
   rw [replaceTop_mid rfl hA]; simp
 
+/-- What the model reads off the destination child list while the node has not been moved yet:
+    the nodes of `L` are live as themselves, text nodes among them are leaves, their handles are
+    distinct and (consolidation on) no two adjacent ones are text. -/
+structure View (f : Forest) (L : List HTree) : Prop where
+  get : ∀ k ∈ L, f.get? k.handle = some k
+  leaf : ∀ k ∈ L, k.value.isText = true → k.kids = []
+  nd : (handlesList L).Nodup
+  noadj : f.consolidation = true → noAdjacentText L = true
+
+theorem View.of_site {f : Forest} {q : Nat} {vq : Value} {L : List HTree} (inv : f.Inv) (norm : f.Normal)
+    (sq : SiteAt f q vq L) : View f L := by
+  refine ⟨?_, sq.leaf inv.valid, sq.nodupKids.1, fun hc => (validTree_node (sq.valid (norm hc))).2.2.1 rfl⟩
+  intro k hk
+  obtain ⟨A, B, hAB⟩ := List.append_of_mem hk
+  have s' : SiteAt f q vq (A ++ k :: B) := hAB ▸ sq
+  exact s'.getKid
+
 end XotModel
